@@ -258,8 +258,14 @@ func (m Model) errVal(v Val, absentWhenNil bool) (Exp, bool) {
 	return str(v.S), true
 }
 
-func (m Model) stackVal(inFields bool) (Exp, bool) {
+func (m Model) stackVal(inFields bool, ek string) (Exp, bool) {
 	switch m.Set.StackMarshal {
+	case "pkgerrors":
+		// frames ([{func, line, source}, ...]) for errors that carry a pkg/errors stack, nothing otherwise
+		if ek == "stacked" {
+			return Exp{Kind: "any"}, true
+		}
+		return Exp{}, false
 	case "", "nil", "nilerr":
 		return Exp{}, false
 	case "string":
@@ -399,8 +405,8 @@ func (m Model) fieldsVal(v Val, st *evState) (Exp, []ExpField) {
 		var extra []ExpField
 		// the error arm (plain and typed-nil errors; a nil interface is `case nil`, an
 		// error that is a LogObjectMarshaler is handled before the switch)
-		if (v.EK == "plain" || v.EK == "" || v.EK == "typednil") && st.stack {
-			if sv, ok := m.stackVal(true); ok {
+		if (v.EK == "plain" || v.EK == "" || v.EK == "typednil" || v.EK == "stacked") && st.stack {
+			if sv, ok := m.stackVal(true, v.EK); ok {
 				extra = append(extra, ExpField{m.stackField(), sv})
 			}
 		}
@@ -482,7 +488,7 @@ func (m Model) opsFieldsCx(ops []Op, where string, st *evState, cx *ctxEffects) 
 			}
 		case "err":
 			if st.stack && m.Set.StackMarshal != "" {
-				if sv, ok := m.stackVal(false); ok {
+				if sv, ok := m.stackVal(false, v.EK); ok {
 					out = append(out, ExpField{m.stackField(), sv})
 				}
 			}
